@@ -72,10 +72,12 @@ static Case gen_case ()
 {	const FmtEntry *e = pickEntry (domain ()) ;
 	Case c ;
 	c.set ("fmt", format_str (e->format)) ; c.seti ("format", e->format) ;
-	// containers that pad odd data sizes count the pad byte as audio (listed finding KF-pad-byte-read-as-audio): for 1-byte
-	// encodings there only even channel counts are generated, so every byte total is even (exclusion by construction)
-	int maj = e->format & SF_FORMAT_TYPEMASK ; bool padded = maj == SF_FORMAT_AIFF || maj == SF_FORMAT_CAF || maj == SF_FORMAT_RF64 || maj == SF_FORMAT_WAV || maj == SF_FORMAT_WAVEX || maj == SF_FORMAT_SVX || maj == SF_FORMAT_W64 ;
-	std::vector<int> chs ; for (int ch : e->channels) if (ch <= 8 && !(padded && e->codec->bytes == 1 && (ch & 1))) chs.push_back (ch) ;
+	// (until fix dc01712 the pad byte of an odd data size was delivered as audio; 1-byte encodings with odd channel counts in padded
+	// containers were excluded here then - they are generated again)
+	// AIFF keeps its pad frame: "at most one pad frame where a container pads odd byte counts" is allowed by C04, so a model that
+	// counts frames exactly cannot cover AIFF 1-byte encodings with odd channel counts; every other padded container is exact now
+	bool aiff1 = (e->format & SF_FORMAT_TYPEMASK) == SF_FORMAT_AIFF && e->codec->bytes == 1 ;
+	std::vector<int> chs ; for (int ch : e->channels) if (ch <= 8 && !(aiff1 && (ch & 1))) chs.push_back (ch) ;
 	if (chs.empty ()) chs.push_back (e->channels.front ()) ;
 	c.seti ("ch", *rc::gen::elementOf (chs)) ;
 	c.seti ("pre", *rc::gen::element (0, 0, 1, 7, 100, 1000)) ;
